@@ -85,6 +85,9 @@ type G struct {
 	inGen     bool
 	roundFault int
 
+	curChain *chain.Chain // what the process globals currently point to
+	curMiner int
+
 	genErrs, verFaultErrs int
 }
 
@@ -174,7 +177,12 @@ func (g *G) become(c *chain.Chain, mi int) *miner.Chain {
 	if g.W.InBubble {
 		synctest.Wait()
 	}
-	m := g.W.Miners[mi%len(g.W.Miners)]
+	mi %= len(g.W.Miners)
+	if g.curChain == c && g.curMiner == mi {
+		return miner.GetMinerChain()
+	}
+	g.curChain, g.curMiner = c, mi
+	m := g.W.Miners[mi]
 	self := &node.SelfNode{}
 	self.Node = m.N
 	self.SetSignatureScheme(m.Keys)
